@@ -6,9 +6,11 @@
 pub mod sym;
 pub mod util;
 pub mod big;
+pub mod uf;
 
 pub mod c06;
 pub mod c07;
+pub mod c09;
 
 #[rustfmt::skip]
 pub mod gen_cells;
